@@ -66,10 +66,20 @@ def extract_spans(stdout, tag):
 # ---------------------------------------------------------------- python-level calls
 # a call is a dict(op=..., key=<tuple>|None, value=..., mk=...)
 
+class _Flag(int):
+    """a strict subclass of int: still an object state (only int itself is a typed array)"""
+
+
+class _Celsius(float):
+    pass
+
+
 def data_type_of(dtn, variant=0):
     import builtins
     if dtn == 'obj':
-        return ['obj', list, str, dict, type(None), object, 'anything'][variant % 7]
+        import enum
+        perm = enum.IntFlag('Perm', 'R W X')
+        return ['obj', list, str, dict, type(None), object, 'anything', _Flag, _Celsius, perm][variant % 10]
     return {'int': int, 'uint': 'uint', 'float': float, 'bool': bool, 'mapper': 'mapper'}[dtn]
 
 
@@ -154,20 +164,30 @@ def run_manager(dtn, data_type, default, calls):
     from rxsci.state.state_topology import StateTopology
     log = RS.StoreLog()
     mgr = st.StoreManager(store_factory=RS.RecordingStore.factory(log))
-    topo = StateTopology()
-    topo.create_mapper('decoy')
-    if dtn == 'mapper':
-        sid = topo.create_mapper('target')
-        if default is not None:     # create_mapper cannot pass a default: use create_state
-            topo.states.pop()
-            topo.ids['target'] -= 1
-            sid = topo.create_state('target', 'mapper', default)
-    else:
-        sid = topo.create_state('target', data_type, default)
-    topo.create_state('target', data_type if dtn != 'mapper' else int, default)
-    mgr.set_topology(topo)
     enc = RS.Encoder(mapper=dtn == 'mapper')
     dflt = dict(RS.NONE) if default is None else enc.value(default)
+    try:
+        topo = StateTopology()
+        topo.create_mapper('decoy')
+        if dtn == 'mapper':
+            sid = topo.create_mapper('target')
+            if default is not None:     # create_mapper cannot pass a default: use create_state
+                topo.states.pop()
+                topo.ids['target'] -= 1
+                sid = topo.create_state('target', 'mapper', default)
+        else:
+            sid = topo.create_state('target', data_type, default)     # the default given positionally
+        topo.create_state('target', data_type if dtn != 'mapper' else int, default)
+        mgr.set_topology(topo)
+    except Exception as ex:
+        # declaring the states failed: every call of the sequence is recorded as raising, so
+        # that the specification rejects the sequence at its first call
+        class _Broken(object):
+            def __getattr__(self, name):
+                def f(*a, **k):
+                    raise ex
+                return f
+        return {'dt': dtn, 'dflt': dflt, 'calls': drive(_Broken(), calls, enc, st.markers.STATE_NOTSET)}
     seen = drive(ManagerApi(mgr, sid), calls, enc, st.markers.STATE_NOTSET)
     traces = RS.to_traces(log)
     if calls:
@@ -215,7 +235,7 @@ def beh_calls(hist):
 def gen_random(rng, big):
     """an in-contract call sequence far beyond the model bounds"""
     dtn = rng.choice(DTS)
-    data_type = data_type_of(dtn, rng.randrange(7))
+    data_type = data_type_of(dtn, rng.randrange(10))
     defaults = {'int': [0, -1, 7], 'uint': [0, 5], 'float': [0.0, -1.0, 2], 'bool': [False, True],
                 'obj': [0, '', [], 'seed', (0,)], 'mapper': [5, 'ignored']}[dtn]
     default = rng.choice(defaults) if rng.random() < 0.5 else None
@@ -240,6 +260,9 @@ def gen_random(rng, big):
                                3, -0.0, 1e308, rng.randint(-2 ** 50, 2 ** 50)])
         if dtn == 'bool':
             return rng.choice([True, False])
+        if isinstance(data_type, type) and issubclass(data_type, (int, float)) and rng.random() < 0.8:
+            # the declared type is a subclass of a numeric type: values of that very type
+            return data_type(rng.choice([1, 2, 3, 4, 6, 7]))
         return rng.choice([None, 0, 1, 'a', '', (1, 2), 2.5, True, False, -7, b'x']
                           + shared + [[rng.randint(0, 3)]])
 
